@@ -138,7 +138,113 @@ func (x *Exec) localByNameAt(fn *ssa.Function, name string, at token.Pos) *ssa.A
 	if best != nil {
 		return best
 	}
-	return first
+	if first != nil {
+		return first
+	}
+	return x.renamedLocal(fn, name, at)
+}
+
+func sortedAllocs(fn *ssa.Function) []*ssa.Alloc {
+	var as []*ssa.Alloc
+	for _, b := range fn.Blocks {
+		for _, in := range b.Instrs {
+			if a, ok := in.(*ssa.Alloc); ok && a.Pos().IsValid() {
+				as = append(as, a)
+			}
+		}
+	}
+	sort.SliceStable(as, func(i, j int) bool { return as[i].Pos() < as[j].Pos() })
+	return as
+}
+
+// localDecls: the function's local variables (and other allocations with a source position) in declaration order
+func localDecls(fn *ssa.Function) []string {
+	var out []string
+	for _, a := range sortedAllocs(fn) {
+		out = append(out, a.Comment)
+	}
+	return out
+}
+
+// renamedLocal: the contract names a local that does not exist (any more): resolve it by its declaration position
+// relative to the declarations that kept their names. Anything ambiguous leaves the name unresolved (UNDECIDED).
+func (x *Exec) renamedLocal(fn *ssa.Function, name string, at token.Pos) *ssa.Alloc {
+	if x.eng == nil || fn.Pkg == nil {
+		return nil
+	}
+	key := fn.Pkg.Pkg.Path() + "#" + fn.RelString(fn.Pkg.Pkg)
+	stored := x.eng.pinnedLocals[key]
+	cur := sortedAllocs(fn)
+	if len(stored) == 0 {
+		return nil
+	}
+	// align the two declaration lists on the names they share (longest common subsequence); an unmatched stretch of the
+	// same length on both sides is a run of renames, a stretch present on one side only is an insertion or a deletion;
+	// a stretch of different non-zero lengths is ambiguous and resolves nothing
+	n, m := len(stored), len(cur)
+	lcs := make([][]int, n+1)
+	for i := range lcs {
+		lcs[i] = make([]int, m+1)
+	}
+	for i := n - 1; i >= 0; i-- {
+		for j := m - 1; j >= 0; j-- {
+			if stored[i] == cur[j].Comment {
+				lcs[i][j] = lcs[i+1][j+1] + 1
+			} else if lcs[i+1][j] >= lcs[i][j+1] {
+				lcs[i][j] = lcs[i+1][j]
+			} else {
+				lcs[i][j] = lcs[i][j+1]
+			}
+		}
+	}
+	mapTo := make([]int, n) // stored index -> current index, -1 = unresolved
+	for i := range mapTo {
+		mapTo[i] = -1
+	}
+	i, j := 0, 0
+	flush := func(i1, i2, j1, j2 int) {
+		if i2-i1 == j2-j1 {
+			for k := 0; k < i2-i1; k++ {
+				mapTo[i1+k] = j1 + k
+			}
+		}
+	}
+	si, sj := 0, 0
+	for i < n && j < m {
+		switch {
+		case stored[i] == cur[j].Comment:
+			flush(si, i, sj, j)
+			i++
+			j++
+			si, sj = i, j
+		case lcs[i+1][j] >= lcs[i][j+1]:
+			i++
+		default:
+			j++
+		}
+	}
+	flush(si, n, sj, m)
+	var first, best *ssa.Alloc
+	for i, nm := range stored {
+		if nm != name || mapTo[i] < 0 {
+			continue
+		}
+		a := cur[mapTo[i]]
+		if first == nil {
+			first = a
+		}
+		if at.IsValid() && a.Pos() <= at && (best == nil || a.Pos() > best.Pos()) {
+			best = a
+		}
+	}
+	pick := best
+	if pick == nil {
+		pick = first
+	}
+	if pick != nil && x.dropped != nil {
+		x.dropped["contract local `"+name+"` of "+fn.Name()+" resolved to the renamed local `"+pick.Comment+"` (same position between unchanged declarations)"] = true
+	}
+	return pick
 }
 
 // ---- escape analysis for local allocs
@@ -746,6 +852,29 @@ func (x *Exec) siteAssertsAt(kind string, mt *types.Map, m, k Term, v *Term, st 
 		goal := x.evalClause(env, sa.C)
 		x.nsafety++
 		x.vc.oblige(&Obligation{Name: fmt.Sprintf("%s#%d", sa.C.Name, x.nsafety), Kind: "site-assert", Tags: sa.C.Tags, Goal: goal, PC: pc, Src: sa.C.Src, Pos: x.posStr(pos), Observe: x.observations()})
+	}
+	for _, sg := range x.fc.SiteGhosts {
+		if sg.Kind != kind {
+			continue
+		}
+		want := x.resolveType(sg.MapType, x.pkg)
+		if canonType(want.Go.Underlying()) != canonType(mt) {
+			continue
+		}
+		gd := x.eng.ghostDecl(sg.Ghost)
+		if gd == nil {
+			ufail("siteghost assigns unknown ghost %s", sg.Ghost)
+		}
+		env := x.newEnv(st, x.entry)
+		env.at = pos
+		env.vars["k"] = SVal{T: k, Ty: goT(mt.Key())}
+		env.vars["m"] = SVal{T: m, Ty: goT(mt)}
+		if v != nil {
+			env.vars["v"] = SVal{T: *v, Ty: goT(mt.Elem())}
+		}
+		ty := x.resolveType(gd.Type, x.pkg)
+		nv := env.coerce(env.eval(sg.E), ty)
+		st.ghosts[sg.Ghost] = x.vc.define("g_"+sg.Ghost, nv.T)
 	}
 }
 
